@@ -12,7 +12,10 @@
 #define VERIF_C13_CONS_H
 #include <map>
 
-static void printConstraints(const topology::TopologyConstraints &t, const topology::Edges &edges, int dim) {
+// cs != nullptr (after a construction): the non-overlap separation constraints the scan pushed to `cs`
+//   KC <left var id> <right var id> <gap>        left + gap <= right   (variable id == node id in this harness)
+static void printConstraints(const topology::TopologyConstraints &t, const topology::Edges &edges, int dim,
+                             const vpsc::Constraints *cs = nullptr) {
     std::vector<topology::TopologyConstraint *> ts;
     t.constraints(ts);
     std::map<const topology::Segment *, std::pair<unsigned, size_t> > segIdx;
@@ -31,6 +34,11 @@ static void printConstraints(const topology::TopologyConstraints &t, const topol
         }
     }
     printf("KD %d %zu\n", dim, ts.size());
+    if (cs) {
+        printf("KN %zu\n", cs->size());
+        for (size_t i = 0; i < cs->size(); ++i)
+            printf("KC %d %d %s\n", (*cs)[i]->left->id, (*cs)[i]->right->id, hx((*cs)[i]->gap).c_str());
+    }
     for (size_t i = 0; i < ts.size(); ++i) {
         const topology::TriConstraint *c = ts[i]->c;
         if (topology::StraightConstraint *sc = dynamic_cast<topology::StraightConstraint *>(ts[i])) {
